@@ -88,6 +88,7 @@ class GoExec:
         self.frame = None
         self.purefuncs = {}
         self.loop_cache = {}
+        self.heap_bounds = {}
         self.use_seq = False
         self.prop = prop
         self.int_overflow_checks = (word == 64)     # library code compiled by GopherJS: Go's wrap-around semantics, no obligation
@@ -173,6 +174,14 @@ class GoExec:
         if cnt:
             n = '%s~%d' % (n, cnt)
         body = st.hyps() + list(extra)
+        if st.meta.get('refs'):                    # the path allocated: the allocation-order facts matter
+            body = body + list(st.meta.get('afacts', ()))
+            syms = set(); seen = set()
+            for t in body + [goal]:
+                collect_syms(t, syms, seen)
+            for hn, facts in self.heap_bounds.items():
+                if hn in syms:
+                    body = body + list(facts)
         meta = dict(meta or {})
         rp = getattr(self.frame, 'replayer', None)
         if rp is not None and 'replayer' not in meta:
@@ -534,6 +543,8 @@ class GoExec:
     def alloc(self, st, v, tid):
         ref = fresh('ref')
         st.assume(ref > 0)
+        st.assume(ref >= self.cur_top(st))          # a new object: distinct from everything allocated before
+        st.meta['top'] = ref + 1
         for r in st.meta.get('refs', []):
             st.assume(ref != r)
         st.meta['refs'] = st.meta.get('refs', []) + [ref]
@@ -543,10 +554,83 @@ class GoExec:
         st.meta['fresh'] = set(st.meta['fresh']) | {ref.get_id()}
         return p
 
+    # allocation order ---------------------------------------------------------------------------
+    # Object references are positive integers handed out in increasing order: `top` is a strict upper bound of every
+    # reference that exists in the state (parameters, everything reachable from them, results of calls); a new object
+    # gets a reference >= top.  The bounds are kept apart from the path condition (st.meta['afacts']) and enter an
+    # obligation only when the path allocated something.
+    TOP0 = z3.Int('alloctop0')
+
+    def cur_top(self, st):
+        return st.meta.get('top', self.TOP0)
+
+    def bump_top(self, st):
+        new = fresh('top')
+        st.assume(new >= self.cur_top(st))
+        st.meta['top'] = new
+        return new
+
+    def bound_terms(self, terms_slots, top):
+        out = []
+        for t, n in terms_slots:
+            if n == 0:
+                out.append(t < top)
+            else:
+                ks = [fresh('k!al') for _ in range(n)]
+                x = t
+                for kq in ks:
+                    x = z3.Select(x, kq)
+                out.append(z3.ForAll(ks, x < top, patterns=[x]))
+        return out
+
+    def bound_value(self, st, v, tid):
+        """every reference inside v exists already (is below the current top)"""
+        try:
+            slots = self.lay.ref_slots(tid)
+            if not slots:
+                return
+            flat = self.lay.flatten(v, tid)
+        except Unsupported:
+            return
+        facts = self.bound_terms([(flat[i], n) for (i, n) in slots if z3.is_int(flat[i]) or z3.is_array(flat[i])], self.cur_top(st))
+        st.meta['afacts'] = tuple(st.meta.get('afacts', ())) + tuple(facts)
+
+    def bound_heap_comp(self, st, arr, tname, fname, i, top=None):
+        """arr: a heap component (field fname, slot i) that was just created; references stored in it are below top"""
+        ft = self.field_type(tname, fname)
+        if ft is None:
+            return []
+        try:
+            slots = dict(self.lay.ref_slots(ft))
+        except Unsupported:
+            return []
+        if i not in slots:
+            return []
+        return self.bound_terms([(arr, slots[i] + 1)], self.cur_top(st) if top is None else top)
+
+    def field_type(self, tname, fname):
+        cache = self.__dict__.setdefault('_ftcache', None)
+        if cache is None:
+            cache = {}
+            for tid in range(len(self.tt.t)):
+                try:
+                    if self.tt.kind(tid) == 'struct':
+                        for f in self.tt.fields(tid):
+                            cache.setdefault((self.tt.name(tid), f['n']), f['t'])
+                    elif self.tt.kind(tid) == 'ptr':
+                        cache.setdefault(('*' + self.tt[self.tt[tid]['e']]['s'], ''), self.tt[tid]['e'])
+                except Exception:
+                    pass
+            self._ftcache = cache
+        return cache.get((tname, fname))
+
     # heap access ---------------------------------------------------------------------------------
     def heap_arr(self, st, key, sort):
         if key not in st.heap:
-            st.heap[key] = z3.Const('H_%s_%s_%d' % (re.sub(r'\W', '_', str(key[0])), key[1], key[2]), z3.ArraySort(I, sort))
+            name = 'H_%s_%s_%d' % (re.sub(r'\W', '_', str(key[0])), key[1], key[2])
+            st.heap[key] = z3.Const(name, z3.ArraySort(I, sort))
+            if name not in self.heap_bounds:
+                self.heap_bounds[name] = self.bound_heap_comp(st, st.heap[key], key[0], key[1], key[2], top=self.TOP0)
         return st.heap[key]
 
     def load_field(self, st, p, tname, fname, ftid):
